@@ -128,6 +128,56 @@ Theorem c02_gc_output_reparses :
 Proof. exact gc_output_reparses. Qed.
 
 
+(* ---- TYPE checking of the emitted bodies (Model/Typing.v, Proofs/TypingNf.v): the declarative stack typing of the WebAssembly
+   specification over structured bodies, PARAMETRIC in the value types, the typing of the individual operators (any relation; return /
+   unreachable stack-polymorphic) and the meaning of block types.  [ht] types a whole body; [hl] looks only at the code the round trip
+   keeps (a sequence up to and including its first br / br_table / return / unreachable).
+   - what the round trip emits for a body (nops and dead code dropped, `else` synthesised, block types canonical, operators re-encoded
+     with renamed indices) is typeable whenever the input body is - for EVERY operator typing that is invariant under the renaming;
+   - exactly: the emitted body is typeable IF AND ONLY IF the kept part of the input body is (so the round trip neither loses typeability
+     nor depends on the dropped code). *)
+From WV Require Import Model.ParseFn Model.ParseSpec Model.BodySpec Model.Sem Model.Typing Proofs.TypingNf.
+Theorem c02_normal_form_preserves_typing :
+  forall (T : Type) (t_i32 : T) (optype : IR.wins -> list T -> list T -> Prop) (opdead : IR.wins -> list T -> Prop)
+         (params results : blockty -> list T) L l a b,
+    ht T t_i32 optype opdead params results L l a b ->
+    ht T t_i32 optype opdead params results L (fst (nf_rt_list false l)) a b.
+Proof. exact nf_preserves_typing. Qed.
+
+Theorem c02_emitted_body_typeable_iff_kept_input_typeable :
+  forall (T : Type) (t_i32 : T) (optype : IR.wins -> list T -> list T -> Prop) (opdead : IR.wins -> list T -> Prop)
+         (params results : blockty -> list T) L l a b,
+    hl T t_i32 optype opdead params results L l a b <->
+    ht T t_i32 optype opdead params results L (fst (nf_rt_list false l)) a b.
+Proof. exact nf_typing_iff. Qed.
+
+Theorem c02_declarative_typing_implies_kept_typing :
+  forall (T : Type) (t_i32 : T) (optype : IR.wins -> list T -> list T -> Prop) (opdead : IR.wins -> list T -> Prop)
+         (params results : blockty -> list T) L l a b,
+    ht T t_i32 optype opdead params results L l a b -> hl T t_i32 optype opdead params results L l a b.
+Proof. exact ht_hl. Qed.
+
+(* on the RE-ENCODED operators and canonical block types of the output module (cf. c01_equivalence_on_the_renamed_operators) *)
+Theorem c02_emitted_body_typing_on_the_renamed_operators :
+  forall (T : Type) (t_i32 : T) (cx : pctx) (ecx : ectx)
+         (optype optype' : IR.wins -> list T -> list T -> Prop) (opdead opdead' : IR.wins -> list T -> Prop)
+         (params params' results results' : blockty -> list T),
+    (forall o i r, optype' (nf_op cx ecx o) i r <-> optype (WOp o) i r) ->
+    (forall o i, opdead' (nf_op cx ecx o) i <-> opdead (WOp o) i) ->
+    (forall bt, params' (nf_bt cx ecx bt) = params bt) ->
+    (forall bt, results' (nf_bt cx ecx bt) = results bt) ->
+    forall L l a b,
+    hl T t_i32 optype opdead params results L l a b <->
+    ht T t_i32 (fun w => optype' (ren cx ecx w)) (fun w => opdead' (ren cx ecx w))
+       (fun bt => params' (nf_bt cx ecx bt)) (fun bt => results' (nf_bt cx ecx bt)) L (fst (nf_rt_list false l)) a b.
+Proof. intros T t_i32 cx ecx optype optype' opdead opdead' params params' results results'.
+  exact (nf_typing_iff_renamed T t_i32 optype opdead params results cx ecx optype' opdead' params' results'). Qed.
+
+(* non-vacuity: a body with a nop, an else-less if, dead code that is NOT typeable: kept part typeable, output typeable, input not *)
+Theorem c02_typing_example :
+  Example.ehl [] Example.ex_body [] [] /\ Example.eht [] (fst (nf_rt_list false Example.ex_body)) [] [] /\ ~ Example.eht [] Example.ex_body [] [].
+Proof. exact (conj Example.ex_hl (conj Example.ex_nf_ht Example.ex_not_ht)). Qed.
+
 Print Assumptions c02_parsed_module_closed.
 Print Assumptions c02_gc_keeps_closed.
 Print Assumptions c02_closed_means_every_reference_indexed.
@@ -144,3 +194,8 @@ Print Assumptions c02_emitted_stream_has_the_validator_guarantees.
 Print Assumptions c02_gc_source_skeleton.
 Print Assumptions c02_emitted_stream_after_gc_has_the_validator_guarantees.
 Print Assumptions c02_gc_output_reparses.
+Print Assumptions c02_normal_form_preserves_typing.
+Print Assumptions c02_emitted_body_typeable_iff_kept_input_typeable.
+Print Assumptions c02_declarative_typing_implies_kept_typing.
+Print Assumptions c02_emitted_body_typing_on_the_renamed_operators.
+Print Assumptions c02_typing_example.
